@@ -2,7 +2,7 @@
 \* together with CStopWindow: <>(stopped in the window). Unconstrained forces, profiles of <= 3 zones.
 SPECIFICATION CFairSpec
 CONSTANTS
-  Variant = "fixed"
+  Variant = "catchup"
   E = 0
   VPerO = 1
   MaxZ = 3
